@@ -476,7 +476,12 @@ Inductive op :=
 | OInterest (face : N) (n : name) (cbp mbf : bool) (nonce : N) (life : option N) (sent : list N)
 | OData (n : name) (w : N) (fresh : option N) (tok : option N)
 | OTick                                                               (* PitCsTable.Update *)
-| ODnl.                                                               (* DeadNonceList.RemoveExpiredEntries *)
+| ODnl                                                                (* DeadNonceList.RemoveExpiredEntries *)
+| OMgmtCap (u : N).                                                   (* cs/config command with Capacity = u handled by fw/mgmt/cs.go *)
+
+(* fw/mgmt/cs.go ContentStoreModule.config carrying a Capacity (uint64 on the wire): a value above math.MaxInt is refused
+   (400) and nothing changes; otherwise table.SetCsCapacity(int(capacity)) *)
+Definition mgmt_cap (s : st) (u : N) : st := if (max_int <? u)%N then s else set_cap s (cap_of_int (Z.of_N u)).
 
 Inductive res := RNone | RFind (c : list csent) | RInt (k : N) (c : list csent).
 
@@ -491,6 +496,7 @@ Definition step (s : st) (o : op) : st * res :=
   | OData n w f tok => (process_data s n w f tok, RNone)
   | OTick => (pit_update s, RNone)
   | ODnl => (dnl_sweep s, RNone)
+  | OMgmtCap u => (mgmt_cap s u, RNone)
   end.
 
 Definition run (s : st) (ops : list op) : st := fold_left (fun s o => fst (step s o)) ops s.
